@@ -551,3 +551,89 @@ def c03_cases(rng, tier):
         cases.append(c)
         oracles.append("o_expect " + expect_tok(e) + " " + c)
     return cases, oracles
+
+
+# ---------------------------------------------------------------------------------------
+# C04: a solution set is a set
+
+def c04_set(rng, clash=None):
+    """a set of 1..4 solutions over two contracts; every solution solves its own predicate: a first-pass leaf that may compute a
+    mutation and a deferred leaf that may read a post-state key and report what it saw.  clash: None | 'dd' | 'dc' | 'cd' | 'cc' |
+    'dd_pred' (two solutions of one contract, different predicates, same key) forces one slot to be proposed twice."""
+    n = rng.randrange(2, 5) if clash else rng.randrange(1, 5)
+    keys = [[1], [2], [3], [1, 2], [], [I64_MAX]]
+    used = {}      # contract -> set of key tuples
+    plan = []
+    for i in range(n):
+        contract = rng.choice([ADDR_A, ADDR_A, ADDR_C])
+        u = used.setdefault(contract, set())
+        declared, computed = [], None
+        for _ in range(rng.randrange(0, 3)):
+            k = rng.choice(keys)
+            if tuple(k) not in u:
+                u.add(tuple(k))
+                declared.append((list(k), [rng.randrange(1, 90)] * rng.choice([0, 1, 2])))
+        if rng.random() < 0.5:
+            k = rng.choice(keys)
+            if tuple(k) not in u:
+                u.add(tuple(k))
+                computed = (list(k), [rng.randrange(100, 190)] * rng.choice([0, 1, 2]))
+        reader = rng.choice(keys) if rng.random() < 0.6 else None
+        plan.append(dict(contract=contract, declared=declared, computed=computed, reader=reader, report=[7000 + i]))
+    if clash:
+        i, j = rng.sample(range(n), 2)
+        plan[j]["contract"] = plan[i]["contract"]
+        k = [rng.choice([4, 5, 6])]
+        va, vb = [rng.randrange(200, 250)], [rng.randrange(250, 300)]
+        if clash in ("dd", "dd_pred"):
+            plan[i]["declared"].append((k, va)); plan[j]["declared"].append((k, vb))
+        elif clash == "dc":
+            plan[i]["declared"].append((k, va)); plan[j]["computed"] = (k, vb)
+        elif clash == "cd":
+            plan[i]["computed"] = (k, va); plan[j]["declared"].append((k, vb))
+        else:
+            plan[i]["computed"] = (k, va); plan[j]["computed"] = (k, vb)
+        # someone reads the contested slot from post-state, so a last-writer-wins overlay shows in the outputs
+        plan[rng.choice([i, j])]["reader"] = k
+        if clash != "dd":
+            # the other clashes must survive check_set: drop accidental declared duplicates
+            pass
+    sols, preds, pbytes = [], [], []
+    for i, pl in enumerate(plan):
+        paddr = bytes([0xB0 + i]) * 32
+        programs = [p_output_mutation(*pl["computed"]) if pl["computed"] else p_sat()]
+        if pl["reader"] is not None:
+            programs.append(p_post_read_report(pl["report"][0], pl["reader"], rng.choice([1, 1, 2]), 12))
+        (nodes, edges), pb = build_pred(encode_graph([[] for _ in programs]), programs)
+        sols.append((pl["contract"], paddr, [], pl["declared"]))
+        preds.append((pl["contract"], paddr, (nodes, edges)))
+        pbytes += pb
+    return sols, preds, pbytes
+
+
+def c04_cases(rng, tier):
+    from .gen_types import sols_tok as _st
+    cases, oracles = [], []
+    n_sets = 60 if tier == "quick" else 1500
+    kinds = [None] * 6 + ["dd", "dd_pred", "dc", "cd", "cc"]
+    pre_sets = [[], [(ADDR_A, [1], [11]), (ADDR_A, [4], [44]), (ADDR_C, [2], [22]), (ADDR_A, [5], [55]), (ADDR_C, [6], [66])]]
+    for s in range(n_sets):
+        clash = kinds[s % len(kinds)] if s < 2 * len(kinds) else rng.choice(kinds)
+        sols, preds, pbytes = c04_set(rng, clash)
+        state = rng.choice(pre_sets)
+        n = len(sols)
+        perms = list(itertools.permutations(range(n))) if n <= 3 else [tuple(rng.sample(range(n), n)) for _ in range(4)] + [tuple(reversed(range(n)))]
+        collect = rng.random() < 0.5
+        base = check_case("twopass", collect, sols, preds, pbytes, state)
+        cases.append(base)
+        cases.append("chkset " + _st(sols))
+        cases.append("addr_set " + _st(sols))
+        for pm in perms:
+            if list(pm) == list(range(n)):
+                continue
+            psols = [sols[i] for i in pm]
+            cases.append(check_case("twopass", collect, psols, preds, pbytes, state))
+            cases.append("chkset " + _st(psols))
+            cases.append("addr_set " + _st(psols))
+            oracles.append(f"o_perm {n} " + " ".join(map(str, pm)) + " " + base)
+    return cases, oracles
